@@ -22,6 +22,7 @@ import (
 	"sort"
 	"strings"
 	"syscall"
+	"time"
 	"unicode/utf8"
 
 	"github.com/rogpeppe/go-internal/txtar"
@@ -38,7 +39,11 @@ type obj struct {
 }
 
 // snapshot lists everything below root (root itself excluded), keyed by slash path.
-func snapshot(root string) map[string]obj {
+func snapshot(root string) map[string]obj { return snapshotSkim(root, "") }
+
+// snapshotSkim is snapshot, except that files below the directory skim (relative to root)
+// are represented by their size and modification time instead of their contents.
+func snapshotSkim(root, skim string) map[string]obj {
 	m := map[string]obj{}
 	filepath.Walk(root, func(p string, info os.FileInfo, err error) error {
 		if err != nil || p == root {
@@ -47,6 +52,8 @@ func snapshot(root string) map[string]obj {
 		rel, _ := filepath.Rel(root, p)
 		if info.IsDir() {
 			m[rel] = obj{dir: true, mode: info.Mode().Perm()}
+		} else if skim != "" && under(rel, skim) {
+			m[rel] = obj{data: []byte(fmt.Sprintf("size=%d mtime=%d", info.Size(), info.ModTime().UnixNano())), mode: info.Mode().Perm()}
 		} else {
 			b, _ := os.ReadFile(p)
 			m[rel] = obj{data: b, mode: info.Mode().Perm()}
@@ -116,7 +123,8 @@ func classify(err error) string {
 		for _, c := range []struct {
 			e syscall.Errno
 			n string
-		}{{syscall.EEXIST, "EEXIST"}, {syscall.ENOENT, "ENOENT"}, {syscall.ENOTDIR, "ENOTDIR"}, {syscall.EISDIR, "EISDIR"}, {syscall.EINVAL, "EINVAL"}, {syscall.ELOOP, "ELOOP"}} {
+		}{{syscall.EEXIST, "EEXIST"}, {syscall.ENOENT, "ENOENT"}, {syscall.ENOTDIR, "ENOTDIR"}, {syscall.EISDIR, "EISDIR"}, {syscall.EINVAL, "EINVAL"}, {syscall.ELOOP, "ELOOP"},
+			{syscall.EMFILE, "EMFILE"}, {syscall.ENFILE, "ENFILE"}, {syscall.EFBIG, "EFBIG"}, {syscall.ENAMETOOLONG, "ENAMETOOLONG"}, {syscall.EACCES, "EACCES"}, {syscall.ENOSPC, "ENOSPC"}} {
 			if errors.Is(pe.Err, c.e) {
 				name = c.n
 			}
@@ -263,10 +271,12 @@ func climbs(name string) bool {
 }
 
 type wresult struct {
-	res    string
-	before map[string]obj
-	after  map[string]obj
-	dirAbs string
+	res      string
+	before   map[string]obj
+	after    map[string]obj
+	dirAbs   string
+	fdBefore int // descriptors of this process before / after the call (collector off)
+	fdAfter  int
 }
 
 var caseSeq int
@@ -286,6 +296,7 @@ func runWrite(work string, c wcase) (wresult, bool) {
 		a.Files = append(a.Files, txtar.File{Name: e.Name, Data: e.Data})
 	}
 	var err error
+	var fdB, fdA int
 	func() {
 		if cwd != "" {
 			old, _ := os.Getwd()
@@ -295,13 +306,13 @@ func runWrite(work string, c wcase) (wresult, bool) {
 			}
 			defer os.Chdir(old)
 		}
-		err = txtar.Write(a, dir)
+		fdB, fdA = withFdProbe(func() { err = txtar.Write(a, dir) })
 	}()
 	if !ok {
 		return wresult{}, false
 	}
 	after := snapshot(root)
-	return wresult{res: classify(err), before: before, after: after, dirAbs: root + "/parent/target"}, true
+	return wresult{res: classify(err), before: before, after: after, dirAbs: root + "/parent/target", fdBefore: fdB, fdAfter: fdA}, true
 }
 
 func writeReq(root string, c wcase, before map[string]obj) string {
@@ -331,6 +342,10 @@ func writeOracles(c wcase, r wresult) []string {
 			}
 		}
 		bad = append(bad, s)
+	}
+	// no descriptor is left open, on success or on error
+	if r.fdBefore != r.fdAfter {
+		add("write/fd-baseline")
 	}
 	// nothing existing was changed or removed, anywhere
 	for k, o := range r.before {
@@ -397,7 +412,51 @@ type ccase struct {
 	Dirs    []string `json:"dirs"` // extra (possibly empty) directories
 	Quote   bool     `json:"quote"`
 	All     bool     `json:"all"`
-	RelMode bool     `json:"relmode"` // txtar-x run inside the output directory without -C
+	RelMode bool     `json:"relmode"` // legacy spelling of xin=1, xdir=2
+	// a big tree given by its generator record instead of Files
+	Big *bigSpec `json:"big,omitempty"`
+	// how txtar-c is given the directory: 0 absolute, 1 "src" (relative), 2 "./src/",
+	// 3 "." from inside the directory, 4 "../src" from inside it, 5 absolute with "//" and a trailing "/."
+	CDir int `json:"cdir"`
+	// where txtar-c's standard output goes: 0 a pipe, 1 a regular file
+	COut int `json:"cout"`
+	// how txtar-x gets the archive: 0 file argument, 1 standard input from a pipe,
+	// 2 standard input redirected from a regular file
+	XIn int `json:"xin"`
+	// how txtar-x is told where to extract: 0 -C <absolute>, 1 -C out (relative), 2 no -C,
+	// run inside the directory, 3 -C=<absolute>, 4 --C <absolute>
+	XDir int `json:"xdir"`
+	// spelling of the boolean flags: 0 -quote / -a when set, 1 --quote / --a when set,
+	// 2 always explicit -quote=true|false -a=true|false
+	FlagForm int `json:"flagform"`
+	// hard RLIMIT_NOFILE for both commands (0: unchanged)
+	NoFile int `json:"nofile"`
+}
+
+const nCDir, nXIn, nXDir, nFlagForm = 6, 3, 5, 3
+
+func (c *ccase) normalise() {
+	if c.RelMode {
+		c.RelMode, c.XIn, c.XDir = false, 1, 2
+	}
+}
+
+func (c *ccase) files() []tfile {
+	if c.Big != nil {
+		return c.Big.tfiles()
+	}
+	return c.Files
+}
+
+// describe: the input in words, for a violation record
+func (c *ccase) describe() string {
+	what := fmt.Sprintf("%d files", len(c.Files))
+	if c.Big != nil {
+		what = "generated tree (" + c.Big.String() + fmt.Sprintf("; %d bytes in total)", c.Big.total())
+	}
+	return fmt.Sprintf("%s; txtar-c flags quote=%v all=%v (spelling %d), directory form %d, stdout to %s; txtar-x reads %s, directory form %d; RLIMIT_NOFILE %d",
+		what, c.Quote, c.All, c.FlagForm, c.CDir, []string{"a pipe", "a regular file"}[c.COut%2],
+		[]string{"the file given as argument", "standard input (pipe)", "standard input (regular file)"}[c.XIn%3], c.XDir, c.NoFile)
 }
 
 var nameAtoms = []string{"a", "b.txt", "c", ".hid", ".d", "sub", "x y", "é", "a.b", "-q", "..x", "z-- q --", "UP", "0", "100%.txt", "a%20b", "%s", "%!", "%d%n"}
@@ -525,24 +584,56 @@ type cresult struct {
 	archive []byte
 	cRC     int
 	xRC     int
+	cErr    string // what the commands wrote to standard error (first bytes)
+	xErr    string
 	out     map[string]obj
 	outDir  bool     // the output directory exists afterwards
 	outFile *obj     // the output path is a regular file afterwards (an entry named "." does that)
 	outside []string // objects outside the output directory that txtar-x changed or created
+	root    string   // the sandbox the commands ran in
+	cArgs   []string // argument lists as given to the commands
+	xArgs   []string
+	xCwd    string
 }
 
 var binC, binX string
 
-func runCmd(dir string, stdin []byte, name string, args ...string) ([]byte, int) {
-	cmd := exec.Command(name, args...)
-	cmd.Dir = dir
-	if stdin != nil {
-		cmd.Stdin = bytes.NewReader(stdin)
+type cmdSpec struct {
+	dir       string
+	stdin     []byte // through a pipe
+	stdinFile string // or: redirected from this file
+	stdout    string // "" = captured through a pipe; else the file to create
+	nofile    int
+	name      string
+	args      []string
+}
+
+func runSpec(c cmdSpec) (out []byte, stderr string, rc int) {
+	cmd := limitedCommand(c.nofile, c.name, c.args...)
+	cmd.Dir = c.dir
+	if c.stdinFile != "" {
+		f, err := os.Open(c.stdinFile)
+		if err != nil {
+			return nil, err.Error(), 126
+		}
+		defer f.Close()
+		cmd.Stdin = f
+	} else if c.stdin != nil {
+		cmd.Stdin = bytes.NewReader(c.stdin)
 	}
-	var out bytes.Buffer
-	cmd.Stdout = &out
+	var ob, eb bytes.Buffer
+	if c.stdout != "" {
+		f, err := os.Create(c.stdout)
+		if err != nil {
+			return nil, err.Error(), 126
+		}
+		defer f.Close()
+		cmd.Stdout = f
+	} else {
+		cmd.Stdout = &ob
+	}
+	cmd.Stderr = &eb
 	err := cmd.Run()
-	rc := 0
 	if err != nil {
 		rc = 1
 		var ee *exec.ExitError
@@ -550,16 +641,43 @@ func runCmd(dir string, stdin []byte, name string, args ...string) ([]byte, int)
 			rc = ee.ExitCode()
 		}
 	}
-	return out.Bytes(), rc
+	es := eb.String()
+	if len(es) > 300 {
+		es = es[:300]
+	}
+	return ob.Bytes(), es, rc
+}
+
+func runCmd(dir string, stdin []byte, name string, args ...string) ([]byte, int) {
+	out, _, rc := runSpec(cmdSpec{dir: dir, stdin: stdin, name: name, args: args})
+	return out, rc
+}
+
+func boolFlags(c ccase) []string {
+	var args []string
+	switch c.FlagForm % nFlagForm {
+	case 0, 1:
+		dash := []string{"-", "--"}[c.FlagForm%nFlagForm]
+		if c.Quote {
+			args = append(args, dash+"quote")
+		}
+		if c.All {
+			args = append(args, dash+"a")
+		}
+	case 2:
+		args = append(args, fmt.Sprintf("-quote=%v", c.Quote), fmt.Sprintf("-a=%v", c.All))
+	}
+	return args
 }
 
 func runCLI(work string, c ccase) cresult {
+	c.normalise()
 	caseSeq++
 	root := filepath.Join(work, fmt.Sprintf("c%d", caseSeq))
 	defer os.RemoveAll(root)
 	src := filepath.Join(root, "src")
 	os.MkdirAll(src, 0o777)
-	for _, f := range c.Files {
+	for _, f := range c.files() {
 		p := filepath.Join(src, f.Path)
 		os.MkdirAll(filepath.Dir(p), 0o777)
 		os.WriteFile(p, f.Data, 0o666)
@@ -567,29 +685,72 @@ func runCLI(work string, c ccase) cresult {
 	for _, d := range c.Dirs {
 		os.MkdirAll(filepath.Join(src, d), 0o777)
 	}
-	var args []string
-	if c.Quote {
-		args = append(args, "-quote")
+	args := boolFlags(c)
+	cs := cmdSpec{dir: root, name: binC, nofile: c.NoFile}
+	switch c.CDir % nCDir {
+	case 0:
+		args = append(args, src)
+	case 1:
+		args = append(args, "src")
+	case 2:
+		args = append(args, "./src/")
+	case 3:
+		args = append(args, ".")
+		cs.dir = src
+	case 4:
+		args = append(args, "../src")
+		cs.dir = src
+	case 5:
+		args = append(args, strings.Replace(src, "/src", "//src/.", 1))
 	}
-	if c.All {
-		args = append(args, "-a")
-	}
-	args = append(args, src)
+	cs.args = args
+	af := filepath.Join(root, "a.txtar")
 	var res cresult
-	res.archive, res.cRC = runCmd(root, nil, binC, args...)
-	out := filepath.Join(root, "out")
-	var before map[string]obj
-	if c.RelMode {
-		os.MkdirAll(out, 0o777)
-		before = snapshot(root)
-		_, res.xRC = runCmd(out, res.archive, binX)
+	res.root, res.cArgs = root, args
+	if c.COut%2 == 1 {
+		cs.stdout = af
+		_, res.cErr, res.cRC = runSpec(cs)
+		res.archive, _ = os.ReadFile(af)
 	} else {
-		af := filepath.Join(root, "a.txtar")
-		os.WriteFile(af, res.archive, 0o666)
-		before = snapshot(root)
-		_, res.xRC = runCmd(root, nil, binX, "-C", out, af)
+		res.archive, res.cErr, res.cRC = runSpec(cs)
+		if c.XIn%nXIn != 1 {
+			os.WriteFile(af, res.archive, 0o666)
+		}
 	}
-	after := snapshot(root)
+	out := filepath.Join(root, "out")
+	xs := cmdSpec{dir: root, name: binX, nofile: c.NoFile}
+	switch c.XDir % nXDir {
+	case 0:
+		xs.args = []string{"-C", out}
+	case 1:
+		xs.args = []string{"-C", "out"}
+	case 2:
+		os.MkdirAll(out, 0o777)
+		xs.dir = out
+	case 3:
+		xs.args = []string{"-C=" + out}
+	case 4:
+		xs.args = []string{"--C", out}
+	}
+	switch c.XIn % nXIn {
+	case 0:
+		xs.args = append(xs.args, af)
+	case 1:
+		xs.stdin = res.archive
+		if xs.stdin == nil {
+			xs.stdin = []byte{}
+		}
+	case 2:
+		xs.stdinFile = af
+	}
+	res.xArgs, res.xCwd = xs.args, xs.dir
+	skim := ""
+	if c.Big != nil {
+		skim = "src" // the archived tree is only watched for changes
+	}
+	before := snapshotSkim(root, skim)
+	_, res.xErr, res.xRC = runSpec(xs)
+	after := snapshotSkim(root, skim)
 	for _, k := range sortedKeys(after) {
 		if under(k, "out") {
 			continue
@@ -605,7 +766,12 @@ func runCLI(work string, c ccase) cresult {
 			res.outside = append(res.outside, k)
 		}
 	}
-	res.out = snapshot(out)
+	res.out = map[string]obj{}
+	for k, o := range after {
+		if strings.HasPrefix(k, "out/") {
+			res.out[k[len("out/"):]] = o
+		}
+	}
 	if st, err := os.Stat(out); err == nil && st.IsDir() {
 		res.outDir = true
 	} else if err == nil {
@@ -631,29 +797,7 @@ func cliOracle(c ccase, r cresult) []string {
 			unq[strings.TrimPrefix(l, "unquote ")] = true
 		}
 	}
-	want := map[string][]byte{}
-	for _, f := range c.Files {
-		dotted := false
-		for _, seg := range strings.Split(f.Path, "/") {
-			if strings.HasPrefix(seg, ".") {
-				dotted = true
-			}
-		}
-		if dotted && !c.All {
-			continue
-		}
-		if !utf8.Valid(f.Data) {
-			continue
-		}
-		d := f.Data
-		if len(d) > 0 && d[len(d)-1] != '\n' {
-			d = append(append([]byte{}, d...), '\n')
-		}
-		if hasMarkerLine(d) && !c.Quote {
-			continue
-		}
-		want[f.Path] = d
-	}
+	want := cliWant(c)
 	nfiles := 0
 	for k, o := range r.out {
 		if o.dir {
@@ -718,6 +862,15 @@ func lsnapshot(root string) map[string]lobj {
 	return m
 }
 
+func lsortedKeys(m map[string]lobj) []string {
+	var ks []string
+	for k := range m {
+		ks = append(ks, k)
+	}
+	sort.Strings(ks)
+	return ks
+}
+
 func lfs(snap map[string]lobj, root string) (n int, parts []string) {
 	var keys []string
 	for k := range snap {
@@ -747,7 +900,6 @@ func lfs(snap map[string]lobj, root string) (n int, parts []string) {
 // (Symlink.v, about which the refutation of containment is proved) to the code.  An escape
 // is counted and noted, never reported as a violation.
 func (rn *runner) symlinkCases() {
-	res := rn.res
 	entriesList := [][]entry{
 		{{"link/x", []byte("DATA")}},
 		{{"abs/sub/y", []byte("D2")}},
@@ -764,9 +916,25 @@ func (rn *runner) symlinkCases() {
 		{{"chain/q", []byte("Q")}},
 		{{"dangling2", []byte("through a dangling link that points outside")}},
 	}
-	escapes := 0
+	// more entries whose own name is a link (no link in a directory component), alone and
+	// after ordinary entries, with empty data and with data
+	for _, l := range []string{"dangling", "dangling2", "lf", "link", "abs", "loop", "in", "chain"} {
+		entriesList = append(entriesList, []entry{{"real/ok", []byte("fine")}, {l, []byte{}}},
+			[]entry{{"./" + l + "/", []byte("D")}, {"after", []byte("not reached")}})
+	}
 	for i, es := range entriesList {
 		for form := 0; form < 2; form++ {
+			rn.symlinkCase(i, es, form)
+		}
+	}
+}
+
+var symlinkEscapes int
+
+func (rn *runner) symlinkCase(i int, es []entry, form int) {
+	res := rn.res
+	{
+		{
 			caseSeq++
 			root := filepath.Join(rn.f.Work, fmt.Sprintf("s%d", caseSeq))
 			os.MkdirAll(filepath.Join(root, "parent/target/real"), 0o777)
@@ -811,7 +979,7 @@ func (rn *runner) symlinkCases() {
 			res.Case(fmt.Sprintf("symlink:%d:%d", i, form), true)
 			res.Count("symlink:cases")
 			res.Count("symlink:result:" + classify(err))
-			in := map[string]string{"kind": "symlink", "entries_text": entriesInput(es)["entries_text"], "dirform": fmt.Sprint(form)}
+			in := map[string]string{"kind": "symlink", "entries_text": entriesInput(es)["entries_text"], "entries_json": entriesInput(es)["entries_json"], "dirform": fmt.Sprint(form)}
 			if want != got {
 				res.Count("mismatch:swrite")
 				res.Violate(common.Violation{Kind: "correspondence", Oracle: "swrite", Input: in, Model: want, Impl: got,
@@ -819,11 +987,53 @@ func (rn *runner) symlinkCases() {
 			}
 			for k, o := range after {
 				if _, old := before[k]; !old && !under(k, targetRel) {
-					escapes++
+					symlinkEscapes++
 					res.Count("symlink:object-created-outside-target")
-					if escapes == 1 {
+					if symlinkEscapes == 1 {
 						res.Notes = append(res.Notes, fmt.Sprintf("out of scope, not a violation: with a pre-existing symbolic link %s/link -> ../out inside the target directory, txtar.Write of the entry %q created %s %s outside the target (os.MkdirAll/os.OpenFile follow links in directory components; proved for the model as symlink_containment_refuted)", targetRel, es[0].Name, o.kind, k))
 					}
+				}
+			}
+			// a link only in the LAST component of an entry's path is no way out: the O_EXCL
+			// create refuses it.  When no entry passes through a link in a directory
+			// component, containment and "existing => error" are required as usual.
+			through, finalLink := false, false
+			for _, e := range es {
+				if strings.HasPrefix(e.Name, "/") || climbs(e.Name) {
+					continue
+				}
+				segs := strings.Split(filepath.Clean(e.Name), "/")
+				for j := 1; j < len(segs); j++ {
+					if o, ok := before[filepath.Join(targetRel, filepath.Join(segs[:j]...))]; ok && o.kind == "L" {
+						through = true
+					}
+				}
+				if o, ok := before[filepath.Join(targetRel, filepath.Clean(e.Name))]; ok && o.kind == "L" {
+					finalLink = true
+				}
+			}
+			if !through {
+				res.Count("symlink:no-link-in-directory-components")
+				var bad []string
+				for k := range after {
+					if _, old := before[k]; !old && !under(k, targetRel) {
+						bad = append(bad, "write/contained")
+					}
+				}
+				if finalLink && err == nil {
+					bad = append(bad, "write/existing-is-error")
+				}
+				for _, o := range uniq(bad) {
+					res.Count("oracle-fails:" + o)
+					var news []string
+					for _, k := range lsortedKeys(after) {
+						if _, old := before[k]; !old {
+							news = append(news, after[k].kind+" "+k)
+						}
+					}
+					res.Violate(common.Violation{Kind: "impl-violation", Oracle: o, Input: in,
+						Impl: fmt.Sprintf("result=%s; new objects relative to the sandbox root: %q", classify(err), news), Key: fmt.Sprintf("%s:symlink-final:%d:%d", o, i, form),
+						Detail: "txtar.Write into parent/target, where the entry's name denotes an existing symbolic link (parent/target/dangling2 -> ../nowhere2 and others, see symlinkCases) and no directory component of any entry is a link: the entry must be refused (the path exists) and nothing may appear outside the target"})
 				}
 			}
 			// what does hold with links: nothing that existed was changed
@@ -972,6 +1182,17 @@ func (rn *runner) writeCase(c wcase, tag string) {
 	}
 }
 
+var phaseStart = time.Now()
+
+// phase records how long each part of the run took (distribution bucket, whole seconds).
+func (rn *runner) phase(name string) {
+	rn.res.Distribution["seconds:"+name] += int(time.Since(phaseStart).Seconds() + 0.5)
+	if os.Getenv("VERIF_DEBUG") != "" {
+		fmt.Fprintf(os.Stderr, "phase %s: %.1fs\n", name, time.Since(phaseStart).Seconds())
+	}
+	phaseStart = time.Now()
+}
+
 func mustJSON(v any) string {
 	b, _ := json.Marshal(v)
 	return string(b)
@@ -981,26 +1202,42 @@ func mustJSON(v any) string {
 // represent) the round-trip oracle does not apply: only "no crash" and "nothing outside
 // the output directory" are required, and the model is still compared.
 func (rn *runner) cliCase(c ccase, tag string) {
+	c.normalise()
 	hostile := tag == "hostile-names"
 	r := runCLI(rn.f.Work, c)
 	res := rn.res
+	files := c.files()
+	total := 0
+	for _, f := range files {
+		total += len(f.Data)
+	}
 	res.Count("cli:src:" + tag)
 	res.Count(fmt.Sprintf("cli:quote=%v,all=%v", c.Quote, c.All))
-	res.Count(fmt.Sprintf("cli:files=%d", len(c.Files)))
+	if c.Big == nil {
+		res.Count(fmt.Sprintf("cli:files=%d", len(files)))
+	} else {
+		res.Count("cli:big:" + c.Big.Kind)
+		res.Count(fmt.Sprintf("cli:big:archive-MiB=%d", len(r.archive)>>20))
+	}
+	res.Count(fmt.Sprintf("cli:txtar-c-dirform=%d,stdout=%d", c.CDir%nCDir, c.COut%2))
+	res.Count(fmt.Sprintf("cli:txtar-x-input=%d,dirform=%d", c.XIn%nXIn, c.XDir%nXDir))
+	if c.NoFile > 0 {
+		res.Count("cli:under-nofile-limit")
+	}
 	nfiles := 0
 	for _, o := range r.out {
 		if !o.dir {
 			nfiles++
 		}
 	}
-	res.Case("c:"+mustJSON(c), len(c.Files) > 0)
+	res.Case("c:"+mustJSON(c), len(files) > 0)
 	if bytes.Contains(r.archive, []byte("unquote ")) {
 		res.Count("cli:has-unquote-line")
 	}
 	if n := bytes.Count(r.archive, []byte("\nunquote ")) + b2i(bytes.HasPrefix(r.archive, []byte("unquote "))); n >= 2 {
 		res.Count("cli:two-or-more-quoted-files")
 	}
-	in := map[string]string{"kind": "cli", "case_json": mustJSON(c)}
+	in := map[string]string{"kind": "cli", "case_json": mustJSON(c), "what": c.describe()}
 	if hostile {
 		in["kind"] = "cli-hostile"
 	}
@@ -1015,23 +1252,57 @@ func (rn *runner) cliCase(c ccase, tag string) {
 		failed = append(failed, "cli/txtar-x-contained")
 	}
 	res.Count(fmt.Sprintf("cli:txtar-x-rc=%d", r.xRC))
+	failed = uniq(failed)
 	for _, o := range failed {
 		res.Count("oracle-fails:" + o)
+		cc, rr := c, r
+		if c.Big != nil && !hostile {
+			cc, rr = rn.shrinkBigCLI(c, o)
+			in = map[string]string{"kind": "cli", "case_json": mustJSON(cc), "what": cc.describe()}
+		}
+		arch := rr.archive
+		if len(arch) > 1500 {
+			arch = arch[:1500]
+		}
+		key := o + ":" + mustJSON(c.Files)
+		if c.Big != nil {
+			key = o + ":big:" + c.Big.Kind + fmt.Sprintf(":xin=%d", c.XIn%nXIn)
+		}
 		res.Violate(common.Violation{Kind: "impl-violation", Oracle: o, Input: in,
-			Impl: fmt.Sprintf("txtar-c rc=%d txtar-x rc=%d changed outside=%q archive=%q", r.cRC, r.xRC, r.outside, r.archive),
-			Key:  o + ":" + mustJSON(c.Files), Detail: "txtar-c then txtar-x does not reproduce the archived files"})
+			Impl: fmt.Sprintf("txtar-c rc=%d stderr=%q; txtar-x rc=%d stderr=%q; changed outside=%q; archive of %d bytes begins %q; %d files extracted of %d expected; %s",
+				rr.cRC, rr.cErr, rr.xRC, rr.xErr, rr.outside, len(rr.archive), arch, countFiles(rr.out), len(cliWant(cc)), cliDiff(cc, rr)),
+			Key: key, Detail: "txtar-c then txtar-x does not reproduce the archived files"})
+	}
+	// the model is exercised on small and medium inputs (its byte strings are unary lists)
+	nameBytes := 0
+	for _, f := range files {
+		nameBytes += len(f.Path)
+	}
+	if total+nameBytes > 96<<10 || len(files) > 300 {
+		res.Count("cli:model-skipped-big-input")
+		return
 	}
 	// model: the archive bytes
-	parts := []string{"savedir", b01(c.Quote), b01(c.All), fmt.Sprint(len(c.Files))}
-	for _, f := range c.Files {
+	parts := []string{"savedir", b01(c.Quote), b01(c.All), fmt.Sprint(len(files))}
+	for _, f := range files {
 		parts = append(parts, common.Hex([]byte(f.Path)), common.Hex(f.Data))
 	}
-	marc := rn.m.Ask1(strings.Join(parts, " "))
-	if marc != common.Hex(r.archive) {
+	// txtar_c_main: the model parses the argument list the command was given
+	cm := []string{"cmain", fmt.Sprint(len(r.cArgs))}
+	for _, a := range r.cArgs {
+		cm = append(cm, common.Hex([]byte(a)))
+	}
+	cm = append(cm, parts[3:]...)
+	marc := rn.m.Ask1(strings.Join(cm, " "))
+	implArc := common.Hex(r.archive)
+	if r.cRC == 2 {
+		implArc = "usage"
+	}
+	if marc != implArc {
 		res.Count("mismatch:savedir")
 		res.Violate(common.Violation{Kind: "correspondence", Oracle: "savedir", Input: in,
-			Model: marc, Impl: common.Hex(r.archive), Key: "savedir:" + mustJSON(c),
-			Detail: "model txtar_c and the bytes printed by txtar-c differ"})
+			Model: marc, Impl: implArc, Key: "savedir:" + mustJSON(c),
+			Detail: "model txtar_c_main (flag parsing + savedir) and the bytes printed by txtar-c differ"})
 		return
 	}
 	// model: the same through the rose-tree walk, with the empty directories
@@ -1046,16 +1317,8 @@ func (rn *runner) cliCase(c ccase, tag string) {
 			Model: mt, Impl: common.Hex(r.archive), Key: "savedirtree:" + mustJSON(c),
 			Detail: "model savedir_tree (filepath.Walk on the tree) and the bytes printed by txtar-c differ"})
 	}
-	// model: extraction of those bytes into an empty directory
-	var req string
-	if c.RelMode {
-		req = strings.Join([]string{"extract", common.Hex([]byte(modelRoot + "/out")), common.Hex([]byte(".")),
-			"2", common.Hex([]byte(modelRoot)), "D", "-", common.Hex([]byte(modelRoot + "/out")), "D", "-", common.Hex(r.archive)}, " ")
-	} else {
-		req = strings.Join([]string{"extract", common.Hex([]byte(modelRoot)), common.Hex([]byte(modelRoot + "/out")),
-			"1", common.Hex([]byte(modelRoot)), "D", "-", common.Hex(r.archive)}, " ")
-	}
-	mext := rn.m.Ask1(req)
+	// model: the txtar-x command line on those bytes, into an empty directory
+	mext := rn.m.Ask1(rn.xmainReq(c, r))
 	snap := map[string]obj{}
 	for k, o := range r.out {
 		snap["out/"+k] = o
@@ -1064,6 +1327,9 @@ func (rn *runner) cliCase(c ccase, tag string) {
 		snap["out"] = obj{dir: true}
 	} else if r.outFile != nil {
 		snap["out"] = *r.outFile
+	}
+	if archiveOnDisk(c) {
+		snap["a.txtar"] = obj{data: r.archive}
 	}
 	rn.checkModes(map[string]obj{}, r.out, in, "cli:"+mustJSON(c))
 	rcs := "ok"
@@ -1078,11 +1344,145 @@ func (rn *runner) cliCase(c ccase, tag string) {
 		res.Count("mismatch:extract")
 		res.Violate(common.Violation{Kind: "correspondence", Oracle: "extract", Input: in,
 			Model: mext, Impl: got, Key: "extract:" + mustJSON(c),
-			Detail: "model extract and txtar-x differ on the extracted tree"})
+			Detail: "model txtar_x_main (argument/stdin choice, -C) and txtar-x differ on the extracted tree"})
 	}
 	if caseSeq%211 == 1 {
 		res.Sample(map[string]any{"kind": "cli", "case": c, "archive": string(r.archive), "extracted_files": nfiles})
 	}
+}
+
+// xmainReq: the model request for the txtar-x command line of the case: the argument list
+// as given (paths into the sandbox renamed into the model's name space), standard input,
+// and a file system holding the root, the output directory when the command runs inside
+// it, and the archive file when it is read by name or redirected.
+func (rn *runner) xmainReq(c ccase, r cresult) string {
+	h := func(s string) string { return common.Hex([]byte(s)) }
+	tr := func(s string) string { return strings.ReplaceAll(s, r.root, modelRoot) }
+	fsn := []string{h(modelRoot), "D", "-"}
+	n := 1
+	if c.XDir%nXDir == 2 {
+		fsn = append(fsn, h(modelRoot+"/out"), "D", "-")
+		n++
+	}
+	if archiveOnDisk(c) {
+		fsn = append(fsn, h(modelRoot+"/a.txtar"), "F", common.Hex(r.archive))
+		n++
+	}
+	req := []string{"xmain", h(tr(r.xCwd)), fmt.Sprint(n), strings.Join(fsn, " "), fmt.Sprint(len(r.xArgs))}
+	for _, a := range r.xArgs {
+		req = append(req, h(tr(a)))
+	}
+	req = append(req, common.Hex(r.archive))
+	return strings.Join(req, " ")
+}
+
+// cliWant: what the round trip must produce (path -> contents after the final-newline fix),
+// written without the model and without txtar's own predicates.
+func cliWant(c ccase) map[string][]byte {
+	want := map[string][]byte{}
+	for _, f := range c.files() {
+		dotted := false
+		for _, seg := range strings.Split(f.Path, "/") {
+			if strings.HasPrefix(seg, ".") {
+				dotted = true
+			}
+		}
+		if dotted && !c.All {
+			continue
+		}
+		if !utf8.Valid(f.Data) {
+			continue
+		}
+		d := f.Data
+		if len(d) > 0 && d[len(d)-1] != '\n' {
+			d = append(append([]byte{}, d...), '\n')
+		}
+		if hasMarkerLine(d) && !c.Quote {
+			continue
+		}
+		want[f.Path] = d
+	}
+	return want
+}
+
+// cliDiff names the first file that is missing or differs.
+func cliDiff(c ccase, r cresult) string {
+	want := cliWant(c)
+	var keys []string
+	for k := range want {
+		keys = append(keys, k)
+	}
+	sort.Strings(keys)
+	for _, k := range keys {
+		o, ok := r.out[k]
+		if !ok {
+			return fmt.Sprintf("first missing file: %.120q (%d bytes)", k, len(want[k]))
+		}
+		got := o.data
+		if hasMarkerLine(want[k]) {
+			if u, err := txtar.Unquote(got); err == nil {
+				got = u
+			}
+		}
+		if !bytes.Equal(got, want[k]) {
+			return fmt.Sprintf("first differing file: %.120q has %d bytes, expected %d", k, len(got), len(want[k]))
+		}
+	}
+	return "no expected file is missing"
+}
+
+// shrinkBigCLI lowers the number and the size of the files of a generated tree while the
+// oracle keeps failing.
+func (rn *runner) shrinkBigCLI(c ccase, o string) (ccase, cresult) {
+	fails := func(c2 ccase) (cresult, bool) {
+		r2 := runCLI(rn.f.Work, c2)
+		return r2, contains(cliOracle(c2, r2), o)
+	}
+	cur := c
+	spec := *c.Big
+	cur.Big = &spec
+	for i := 0; i < 40; i++ {
+		progress := false
+		for _, f := range []func(b *bigSpec) bool{
+			func(b *bigSpec) bool {
+				if b.N <= 1 {
+					return false
+				}
+				b.N = b.N / 2
+				return true
+			},
+			func(b *bigSpec) bool {
+				if b.DataLen <= 1 {
+					return false
+				}
+				b.DataLen = b.DataLen * 3 / 4
+				return true
+			},
+			func(b *bigSpec) bool {
+				if b.Depth <= 0 {
+					return false
+				}
+				b.Depth--
+				return true
+			},
+		} {
+			s2 := *cur.Big
+			if !f(&s2) {
+				continue
+			}
+			c2 := cur
+			c2.Big = &s2
+			if _, bad := fails(c2); bad {
+				cur = c2
+				progress = true
+			}
+		}
+		if !progress {
+			break
+		}
+	}
+	r, _ := fails(cur)
+	return cur, r
 }
 
 // rootDirCase runs `txtar-c /` inside a chroot holding two files: the names come out
@@ -1139,6 +1539,20 @@ func (rn *runner) rootDirCase() {
 			Input: map[string]string{"kind": "rootdir", "archive": out.String()}, Impl: fmt.Sprintf("rc=%d after=%v", rc, sortedKeys(after)),
 			Detail: "txtar-x on the archive of `txtar-c /` (absolute names) must fail and write nothing"})
 	}
+}
+
+// archiveOnDisk: the sandbox holds the file a.txtar (txtar-c's output was redirected to
+// it, or txtar-x reads it by name or as redirected standard input)
+func archiveOnDisk(c ccase) bool { return c.COut%2 == 1 || c.XIn%nXIn != 1 }
+
+func uniq(l []string) []string {
+	var out []string
+	for _, x := range l {
+		if !contains(out, x) {
+			out = append(out, x)
+		}
+	}
+	return out
 }
 
 func b2i(b bool) int {
@@ -1267,6 +1681,10 @@ func genEntries(r *common.RNG) []entry {
 }
 
 func main() {
+	if mode := os.Getenv(childEnv); mode != "" {
+		childMain(mode)
+		return
+	}
 	f := common.ParseFlags()
 	prop := os.Getenv("VERIF_PROP")
 	if prop == "" {
@@ -1338,6 +1756,28 @@ func main() {
 		case "path":
 			rn.pathCase(string(common.UnHex(in["p"])))
 			rn.flushPaths()
+		case "bigwrite":
+			var c bwcase
+			if json.Unmarshal([]byte(in["case_json"]), &c) == nil {
+				rn.bigWriteCase(c, tag)
+			}
+		case "trace":
+			var c tcase
+			if json.Unmarshal([]byte(in["case_json"]), &c) == nil && (cliOK || !c.ViaX) {
+				rn.traceCase(c, tag)
+			}
+		case "fault":
+			var c fcase
+			if json.Unmarshal([]byte(in["case_json"]), &c) == nil {
+				rn.faultCase(c, tag)
+			}
+		case "symlink":
+			var es []entry
+			form := 0
+			fmt.Sscan(in["dirform"], &form)
+			if json.Unmarshal([]byte(in["entries_json"]), &es) == nil {
+				rn.symlinkCase(0, es, form)
+			}
 		}
 	}
 
@@ -1372,6 +1812,7 @@ func main() {
 	}
 	enumerate([]string{"/", ".", "a", `\`}, maxLen, func(s []string) { rn.pathCase(strings.Join(s, "")) })
 	rn.flushPaths()
+	rn.phase("paths")
 
 	// 2. Write: every name of up to 3 segments over the small alphabet, in every scenario
 	enumerate(segSmall, 3, func(segs []string) {
@@ -1428,9 +1869,42 @@ func main() {
 		rn.writeCase(wcase{Scenario: r.Intn(nScenarios), DirForm: r.Intn(nDirForms), Entries: genEntries(r)}, "random")
 	}
 
+	rn.phase("write-exhaustive-and-random")
 	// 3b. symbolic links inside the target (out of scope: documented and tied to Symlink.v)
 	rn.symlinkCases()
 
+	rn.phase("symlinks")
+	// 3c. descriptors: open/close order of the created files (inotify), in-process
+	if !fdProbeOK {
+		res.Notes = append(res.Notes, "/proc/self/fd is not readable: descriptor counts not taken")
+	}
+	nTrace, maxTrace := 120, 40
+	if thorough {
+		nTrace, maxTrace = 1500, 300
+	}
+	for i := 0; i < nTrace; i++ {
+		rn.traceCase(genTraceCase(r, maxTrace), "generated")
+	}
+	rn.phase("descriptor-traces")
+	// 3d. failing system calls (short write under RLIMIT_FSIZE, no descriptor left)
+	nFault := 60
+	if thorough {
+		nFault = 600
+	}
+	for i := 0; i < nFault; i++ {
+		rn.faultCase(genFaultCase(r), "generated")
+	}
+	rn.phase("failing-syscalls")
+	// 3e. archives of realistic size under a descriptor budget (child process)
+	nBig, scale := 6, 1
+	if thorough {
+		nBig, scale = 24, 3
+	}
+	for i := 0; i < nBig; i++ {
+		rn.bigWriteCase(bwcase{Spec: genBig(r, i, scale), Slack: 4 + r.Intn(8)}, "generated")
+	}
+
+	rn.phase("big-archives")
 	// 4. txtar-c | txtar-x on generated trees
 	if cliOK {
 		nTrees := 300
@@ -1442,7 +1916,7 @@ func main() {
 			for q := 0; q < 2; q++ {
 				for a := 0; a < 2; a++ {
 					c.Quote, c.All = q == 1, a == 1
-					c.RelMode = r.Chance(1, 3)
+					c.CDir, c.COut, c.XIn, c.XDir, c.FlagForm = r.Intn(nCDir), r.Intn(2), r.Intn(nXIn), r.Intn(nXDir), r.Intn(nFlagForm)
 					rn.cliCase(c, "generated")
 				}
 			}
@@ -1455,9 +1929,60 @@ func main() {
 		}
 		for i := 0; i < nHostile; i++ {
 			c := genHostileTree(r)
-			c.Quote, c.All, c.RelMode = r.Bool(), r.Bool(), r.Chance(1, 3)
+			c.Quote, c.All = r.Bool(), r.Bool()
+			c.CDir, c.COut, c.XIn, c.XDir, c.FlagForm = r.Intn(nCDir), r.Intn(2), r.Intn(nXIn), r.Intn(nXDir), r.Intn(nFlagForm)
 			rn.cliCase(c, "hostile-names")
 		}
+		rn.phase("cli-generated-trees")
+		// the same through txtar-x, watched with inotify
+		for i := 0; i < nTrace/10; i++ {
+			c := genTraceCase(r, maxTrace)
+			c.ViaX = true
+			rn.traceCase(c, "generated")
+		}
+		// big trees: every kind, through every input route of txtar-x and both kinds of
+		// standard output of txtar-c, all flag combinations, some under a descriptor limit
+		rounds := 1
+		if thorough {
+			rounds = 4
+		}
+		for round := 0; round < rounds; round++ {
+			for kind := 0; kind < 6; kind++ {
+				spec := genBig(r, kind, 1)
+				if spec.N > 1500 && kind < 2 {
+					spec.N = 800 + r.Intn(700) // the tree is read back several times
+				}
+				combos := 2
+				if kind == 4 {
+					combos = 6
+				} else if kind == 5 {
+					combos = 3
+				}
+				if kind == 4 && round == 0 {
+					spec.N, spec.DataLen = 5, 4<<20+777 // tens of MiB in total once per run
+				}
+				for j := 0; j < combos; j++ {
+					if kind == 4 && j == 1 {
+						spec = genBig(r, kind, 1)
+					}
+					spec := spec
+					c := ccase{Big: &spec, Quote: r.Bool(), All: r.Bool(), CDir: r.Intn(nCDir), COut: j % 2, XIn: (j + round) % nXIn,
+						XDir: r.Intn(nXDir), FlagForm: r.Intn(nFlagForm)}
+					if kind >= 4 && j < 3 {
+						c.Quote = true
+					}
+					if kind < 4 && j == 1 {
+						c.NoFile = 40 + r.Intn(24)
+					}
+					t0 := time.Now()
+					rn.cliCase(c, "big-tree")
+					if os.Getenv("VERIF_DEBUG") != "" {
+						fmt.Fprintf(os.Stderr, "  big tree %s nofile=%d xin=%d cout=%d: %.1fs\n", spec.String(), c.NoFile, c.XIn, c.COut, time.Since(t0).Seconds())
+					}
+				}
+			}
+		}
+		rn.phase("cli-big-trees")
 		rn.rootDirCase()
 		// the command built on Write refuses escaping archives too
 		for _, evil := range []string{"-- ../x --\nX\n", "-- /abs --\nX\n", "-- a/../../x --\nX\n", "-- .. --\nX\n"} {
